@@ -1,0 +1,40 @@
+//go:build verif
+
+// Package verifhook provides instrumentation points used by the external
+// verification harness. With the "verif" build tag off every function in this
+// package is an empty, inlinable no-op.
+package verifhook
+
+import "sync/atomic"
+
+// Enabled reports whether the hooks are compiled in.
+const Enabled = true
+
+// Func receives every hook invocation. gate is true for Point (the receiver may
+// block the calling goroutine to force a schedule) and false for Event.
+type Func func(gate bool, name string, kv []any)
+
+var fn atomic.Pointer[Func]
+
+// Install sets (or, with nil, removes) the process-wide hook receiver.
+func Install(f Func) {
+	if f == nil {
+		fn.Store(nil)
+		return
+	}
+	fn.Store(&f)
+}
+
+// Point marks a scheduling point: the receiver may block here.
+func Point(name string, kv ...any) {
+	if f := fn.Load(); f != nil {
+		(*f)(true, name, kv)
+	}
+}
+
+// Event records a linearization point: the receiver must not block.
+func Event(name string, kv ...any) {
+	if f := fn.Load(); f != nil {
+		(*f)(false, name, kv)
+	}
+}
